@@ -683,6 +683,54 @@ def corpus_stream(ctx):
         ctx.count("corpus cases")
 
 
+def bridge_verdict(M):
+    """None if the mesh dict M survives to_meshio / from_meshio with its content, else what went wrong"""
+    import warnings as _w
+    from fieldcompare.mesh import meshio_utils
+    from . import meshgen as MG
+    types = [t for t, _ in M["blocks"]]
+    try:
+        with _w.catch_warnings():
+            _w.simplefilter("ignore")
+            f = MG.to_fieldcompare(M)
+            back = MG.from_fieldcompare(meshio_utils.from_meshio(meshio_utils.to_meshio(f)))
+    except Exception as e:  # noqa: BLE001
+        return f"to_meshio / from_meshio raised {type(e).__name__}: {e} (cell types {types})"
+    if MG.content(M) != MG.content(back):
+        return f"a mesh taken to meshio and back lost or changed cells / values (cell types {types} -> {[t for t, _ in back['blocks']]})"
+    return None
+
+
+def to_from_meshio_stream(ctx, n):
+    """explicit meshes of the C02 family (several cell types at once, also both members of a compatible pair such as QUAD and
+    PIXEL) with point and cell fields, taken to meshio and back through the bridge: no cell and no value may be lost or moved"""
+    import glob
+    import json as _json
+    from . import meshgen as MG
+    from .meshfam import restore_mesh
+    rng = ctx.rng
+    todo = []
+    for fn in sorted(glob.glob(str(lib.VERIF / "corpus" / "C07" / "*.json"))):
+        case = _json.load(open(fn)).get("case") or {}
+        if "bridge" in case:
+            todo.append(restore_mesh(case["bridge"]))
+    while len(todo) < n:
+        M = MG.add_fields(rng, MG.gen_mesh(rng, max_cells=5), kinds=("scalar", "vector", "int"))
+        if any(t == "POLYGON" for t, _ in M["blocks"]) or MG.has_coincident_points(M):
+            continue      # (polygons: meshio needs one block per corner count; exercised by the hybrid stream)
+        todo.append(M)
+    for M in todo:
+        canon = {"bridge": _json.loads(_json.dumps({k: v for k, v in M.items() if not k.startswith("_")}, default=str))}
+        types = [t for t, _ in M["blocks"]]
+        bad = bridge_verdict(M)
+        ctx.case(canon, len(types) >= 2, sample={"cell types": types, "points": len(M["pts"])})
+        ctx.count("bridge:types:" + "+".join(sorted(types)))
+        ctx.tie("T2 to_meshio / from_meshio round trip conserves the content")
+        if bad:
+            ctx.violation("E4", bad, canon)
+        ctx.traces_validated += 1
+
+
 def run(ctx):
     try:
         return _run(ctx)
@@ -696,6 +744,7 @@ def _run(ctx):
     rng = ctx.rng
     quick = ctx.tier == "quick"
     corpus_stream(ctx)
+    to_from_meshio_stream(ctx, 150 if quick else 4000)
     n_grid = 560 if quick else 9000
     n_hyb = 320 if quick else 3000
     subsets = [s for r in (1, 2, 3) for s in itertools.combinations(range(3), r)]
@@ -787,6 +836,11 @@ def _run(ctx):
 def replay(pid, rec):
     import tempfile
     c = rec["case"]
+    if c and "bridge" in c:
+        from .meshfam import restore_mesh
+        bad = bridge_verdict(restore_mesh(c["bridge"]))
+        print("to_meshio / from_meshio:", bad or "content conserved")
+        return bad is None
     if not c or "grid" not in c:
         print("no case in this replay:", rec["what"])
         return False
